@@ -668,7 +668,10 @@ def run_contract(table, registry, contract, feas_timeout_ms=2000, max_paths=400)
             for vn, inp in contract.closure_vars.items():
                 if isinstance(inp, str) and inp.startswith('@'):
                     # a sibling nested function of the enclosing function, closed over the same variables
-                    sib = table.function(contract.target.rsplit('.', 1)[0] + '.<' + inp[1:] + '>')
+                    try:
+                        sib = table.function(contract.target.rsplit('.', 1)[0] + '.<' + inp[1:] + '>')
+                    except KeyError:
+                        raise OutOfSubset(f'the nested function {inp[1:]} the contract refers to no longer exists')
                     cl.locals[vn] = FuncVal(sib, cl)
                 else:
                     cl.locals[vn] = vals[inp]
